@@ -279,6 +279,28 @@ def gen_merge_linked_case(rnd):
     return {'graph': g, 'trace': tr, 'cfg': cfg, 'linked': linked}
 
 
+def gen_gap_case(rnd):
+    """a road with a missing link (two pieces on one line, as in the library's own test of continue_with_distance): the match
+    stops at the gap, continue_with_distance() jumps it, and one fix after the gap lies off the road by more or less than
+    max_dist - the jump radius is a radius for finding edges, the cut-off of the observations stays max_dist"""
+    L = labels(6, rnd.choice(['str', 'int']))
+    ys = [0, 2, 4, 6.5, 8.5, 10.5]
+    x0 = rnd.choice([0, 1.5])
+    g = {L[i]: ((x0, ys[i]), []) for i in range(6)}
+    for i, j in ((0, 1), (1, 2), (3, 4), (4, 5)):
+        g[L[i]][1].append(L[j])
+        if rnd.random() < 0.7:
+            g[L[j]][1].append(L[i])
+    md = rnd.choice([1.0, 1.5])
+    off = rnd.choice([0.25, 0.8 * md, 1.2 * md, 1.7 * md, 2.5 * md])
+    tr = [(x0 + 0.25, 0.5), (x0 + 0.25, 1.75), (x0 + 0.25, 3.25), (x0 + 0.25, 3.9), (x0 + off, 7.0), (x0 + 0.25, 8.0), (x0 + 0.25, 9.5)]
+    cfg = gen_cfg(rnd, only_edges=True, cutoffs=False)
+    cfg['max_dist'] = md
+    cfg['obs_noise'] = rnd.choice([0.5, 1, 2])
+    cfg['max_lattice_width'] = rnd.choice([None, None, 3])
+    return {'graph': g, 'trace': tr, 'cfg': cfg}
+
+
 def gen_grid_case(rnd):
     """a 3x3 or 4x4 street grid (two-way streets, a few one-way) and a SPARSE trace: consecutive fixes are two or three blocks
     apart, so that chains of non-emitting states of depth >= 2 are needed; a small lattice width"""
